@@ -109,3 +109,30 @@ for u in UNITS:
 for u in UNITS:
     if u['name'] == 'mpq_inv_ds':
         u['selftest'] = _m
+
+# ------------------------------------------------------------------ mpq_equal: 1 exactly when both parts agree limb for limb (canonical operands)
+UNITS.append(dict(name='mpq_equal', props=['C12', 'C11', 'C04', 'C15'], source='mpq/equal.c', contracts=['mpn.h', 'mpz.h', 'c11.h', 'mpq.h'],
+    contract_text='''int g_eq_where;       /* which comparison answered 0: 1 numerator size, 2 numerator limb g_hd, 3 denominator size, 4 denominator limb g_hd */
+int __gmpq_equal (mpq_srcptr op1, mpq_srcptr op2)
+__CPROVER_requires (V_WFQ (op1) && V_WFQ (op2) && V_GHOSTS_OK)
+__CPROVER_assigns (g_hd, g_eq_where)
+__CPROVER_ensures (__CPROVER_return_value == 0 || __CPROVER_return_value == 1)
+__CPROVER_ensures (__CPROVER_return_value == 1 ==> (V_SIZ (V_NUM (op1)) == V_SIZ (V_NUM (op2)) && V_SIZ (V_DEN (op1)) == V_SIZ (V_DEN (op2))
+   && (gk < V_ABSIZ (V_NUM (op1)) ==> V_PTR (V_NUM (op1))[gk] == V_PTR (V_NUM (op2))[gk]) && (gj < V_ABSIZ (V_DEN (op1)) ==> V_PTR (V_DEN (op1))[gj] == V_PTR (V_DEN (op2))[gj])))
+__CPROVER_ensures (__CPROVER_return_value == 0 ==> (
+      (g_eq_where == 1 && V_SIZ (V_NUM (op1)) != V_SIZ (V_NUM (op2)))
+   || (g_eq_where == 2 && 0 <= g_hd && g_hd < V_ABSIZ (V_NUM (op1)) && g_hd < V_ABSIZ (V_NUM (op2)) && V_PTR (V_NUM (op1))[g_hd] != V_PTR (V_NUM (op2))[g_hd])
+   || (g_eq_where == 3 && V_SIZ (V_DEN (op1)) != V_SIZ (V_DEN (op2)))
+   || (g_eq_where == 4 && 0 <= g_hd && g_hd < V_ABSIZ (V_DEN (op1)) && g_hd < V_ABSIZ (V_DEN (op2)) && V_PTR (V_DEN (op1))[g_hd] != V_PTR (V_DEN (op2))[g_hd])));
+''', enforce=['__gmpq_equal'],
+    functions={'__gmpq_equal': dict(
+        inserts=[(r'if \(num1_size != num2_size\)\s*return 0;', r'if (num1_size != num2_size) { g_eq_where = 1; return 0; }'.replace('if (num1_size != num2_size)', r'\g<0>'[:0] + 'if (num1_size != num2_size)')) ] if False else
+                [(r'(?<=if \(num1_size != num2_size\))\s*return 0;', r' { g_eq_where = 1; \g<0> }'),
+                 (r'(?<=if \(num1_ptr\[i\] != num2_ptr\[i\]\))\s*return 0;', r' { g_eq_where = 2; g_hd = i; \g<0> }'),
+                 (r'(?<=if \(den1_size != den2_size\))\s*return 0;', r' { g_eq_where = 3; \g<0> }'),
+                 (r'(?<=if \(den1_ptr\[i\] != den2_ptr\[i\]\))\s*return 0;', r' { g_eq_where = 4; g_hd = i; \g<0> }')],
+        loops={0: dict(scalars=['i', 'g_hd', 'g_eq_where'], inv='(0 <= i && i <= num1_size && num1_size == V_ABSIZ (V_NUM (op1)) && num1_size == V_ABSIZ (V_NUM (op2)) && num1_ptr == V_PTR (V_NUM (op1)) && num2_ptr == V_PTR (V_NUM (op2)) && ((0 <= gk && gk < i) ==> num1_ptr[gk] == num2_ptr[gk]))', dec='(num1_size - i)'),
+               1: dict(scalars=['i', 'g_hd', 'g_eq_where'], inv='(0 <= i && i <= den1_size && den1_size == V_SIZ (V_DEN (op1)) && den1_ptr == V_PTR (V_DEN (op1)) && den2_ptr == V_PTR (V_DEN (op2)) && ((0 <= gj && gj < i) ==> den1_ptr[gj] == den2_ptr[gj]))', dec='(den1_size - i)')})},
+    harness='void h_mpq_equal (void) {\n%s%s  mpq_srcptr a = &A, b = &B; if (nondet_bool ()) b = a;\n  gk = nondet_long (); gj = nondet_long (); gh = nondet_long ();\n  __gmpq_equal (a, b);\n}' % (mpq_obj('A'), mpq_obj('B')),
+    timeout=600,
+    selftest=[('__gmpq_equal', r'for \(i = 0; i < den1_size; i\+\+\)', 'for (i = 1; i < den1_size; i++)'), ('__gmpq_equal', r'num1_size = \(\(num1_size\) >= 0 \? \(num1_size\) : -\(num1_size\)\);', 'num1_size = ((num1_size) >= 0 ? (num1_size) : 0);')]))
